@@ -206,7 +206,7 @@ PROPS = {
                         "REDC_SQ_OUTER_0", "REDC_SQ_OUTER_1", "REDC_SQ_OUTER_2", "REDC_SQ_CARRY_HI", "REDC_REDUCE_SUB_CARRY",
                         "REDC_REDUCE_SUB_NOBORROW", "REDC_REDUCE_KEEP"],
         rule="Cases: slice-level mul_redc / square_redc for every N in 1..=16 and Uint::mul_redc / square_redc at 24 widths; odd "
-             "moduli >= 3 in 14 top-limb classes (0 = short, 1, 2^62-2..2^62+1, 2^63-2..2^63+1, MAX-1, MAX, random, alphabet), "
+             "moduli >= 3 in 18 top-limb classes (0 = short, 1, 2^62-2..2^62+1, 2^64/3-1..2^64/3+1, 2^63-2..2^63+1, MAX-1, MAX, random, alphabet), "
              "operands 0, 1, 2, m-1, m-2, m/2, alphabet mod m. Oracle: r < m and r*R = a*b (mod m) with R = 2^(64N); inv computed "
              "by the harness's own Newton iteration. Non-trivial: a, b >= 2.",
         assumptions=COMMON_ASSUME,
